@@ -55,7 +55,22 @@ type c05KUConfig struct {
 	tier     int    // 1: thorough tier only
 	// extraDepth is added to the thorough tier's depth bound (10)
 	extraDepth int
+	// late: the BFS does not start at the fresh pair of AEADs but at SETTLED start states: the only
+	// operation enabled in the initial state is the macro operation settle(i, rounds, tail) (see
+	// settle below), which drives the pair through `rounds` complete key updates, each followed by the
+	// regular timer-based discard of the old read keys; lateDepth[0|1] = number of ordinary operations
+	// explored after it in the quick | thorough tier
+	late      bool
+	lateDepth [2]int
 }
+
+// start states of the "late" parts: settle(i, rounds, tail)
+const (
+	c05KUSettleRounds = 2
+	c05KUSettleTails  = 3
+)
+
+var c05KUSettleTailNames = [...]string{"discard-observed", "timer-expired", "timer-running"}
 
 // packet numbers of made-up packets: below every genuine packet / far above every genuine packet
 // (still inside the decoding window of a 4-byte packet number)
@@ -116,6 +131,7 @@ type c05KUInst struct {
 	repl    [2][2]*c05KUPkt // by sender: first and latest delivered packet
 	now     monotime.Time
 	dead    bool
+	settled bool // late parts: the settle macro operation has run
 	outcome string
 }
 
@@ -166,6 +182,17 @@ func (in *c05KUInst) Ops() []explore.Op {
 		return nil
 	}
 	var ops []explore.Op
+	if in.sh.cfg.late && !in.settled {
+		// start states: which endpoint drives the key updates, how many complete rounds, how the last round ends
+		for rounds := 1; rounds <= c05KUSettleRounds; rounds++ {
+			for tail := 0; tail < c05KUSettleTails; tail++ {
+				for i := 0; i < 2; i++ {
+					ops = append(ops, explore.Op{N: "settle", A: i, B: rounds, C: tail})
+				}
+			}
+		}
+		return ops
+	}
 	for e := 0; e < 2; e++ {
 		if !in.end[e].confirmed {
 			ops = append(ops, explore.Op{N: "confirm", A: e})
@@ -450,7 +477,90 @@ func (in *c05KUInst) checkRejected(r int, raw []byte, key, what string) *explore
 	return nil
 }
 
+// settle is the macro operation that produces the start states of the "late" parts. It is a fixed
+// sequence of ORDINARY operations of the alphabet (each one executed on the real code and on the
+// reference model and judged by the same oracle), i.e. a history every conformant pair of endpoints
+// can go through; it only saves BFS depth:
+//
+//	confirm(i)                                   only endpoint i may initiate key updates
+//	rounds x {
+//	  send(i) [+ deliver] until i initiates      the key update of this round (KeyPhase() decides)
+//	  deliver                                    the peer follows
+//	  send(peer), deliver                        the peer answers in the new phase: update confirmed and
+//	                                             acknowledged, i's 3*PTO drop timer starts
+//	  tick, tick                                 strictly more than 3*PTO pass            (tail <= 1 in the last round)
+//	  send(peer), deliver                        i receives a packet after the expiry: regular,
+//	                                             timer-based discard of the old read keys  (tail == 0 in the last round)
+//	}
+func (in *c05KUInst) settle(i, rounds, tail int) *explore.Fail {
+	explore.Must(i >= 0 && i < 2 && rounds >= 1 && rounds <= c05KUSettleRounds && tail >= 0 && tail < c05KUSettleTails, "settle(%d,%d,%d)", i, rounds, tail)
+	peer := 1 - i
+	var steps []string
+	do := func(op explore.Op) *explore.Fail {
+		steps = append(steps, op.String())
+		if fl := in.apply1(op); fl != nil {
+			fl.What = fmt.Sprintf("inside settle(%d,%d,%d) = %s: %s", i, rounds, tail, strings.Join(steps, " "), fl.What)
+			return fl
+		}
+		return nil
+	}
+	seq := func(ops ...explore.Op) *explore.Fail {
+		for _, op := range ops {
+			if fl := do(op); fl != nil {
+				return fl
+			}
+		}
+		return nil
+	}
+	if fl := do(explore.Op{N: "confirm", A: i}); fl != nil {
+		return fl
+	}
+	for r := 1; r <= rounds; r++ {
+		for n := 0; in.end[i].phase < r; n++ {
+			explore.Must(n <= int(max(in.sh.cfg.first, in.sh.cfg.interval))+2, "settle: endpoint %d does not initiate key update %d", i, r)
+			if fl := do(explore.Op{N: "send", A: i}); fl != nil {
+				return fl
+			}
+			if in.end[i].phase < r { // a packet of the old phase: delivered in order
+				if fl := do(explore.Op{N: "deliver", A: i}); fl != nil {
+					return fl
+				}
+			}
+		}
+		explore.Must(len(in.flight[i]) == 1 && len(in.flight[peer]) == 0, "settle: packets in flight %d/%d", len(in.flight[i]), len(in.flight[peer]))
+		if fl := seq(explore.Op{N: "deliver", A: i}, explore.Op{N: "send", A: peer}, explore.Op{N: "deliver", A: peer}); fl != nil {
+			return fl
+		}
+		mi, mp := in.end[i], in.end[peer]
+		explore.Must(mi.phase == r && mp.phase == r && mi.ackedInPhase && mi.rcvdInPhase && mi.oldDeadline != 0 && mp.oldDeadline != 0, "settle: round %d not settled in the model", r)
+		last := r == rounds
+		if !last || tail <= 1 {
+			if fl := seq(explore.Op{N: "tick"}, explore.Op{N: "tick"}); fl != nil {
+				return fl
+			}
+			explore.Must(in.now.After(mi.oldDeadline) && in.now.After(mp.oldDeadline), "settle: drop timers not expired")
+		}
+		if !last || tail == 0 {
+			if fl := seq(explore.Op{N: "send", A: peer}, explore.Op{N: "deliver", A: peer}); fl != nil {
+				return fl
+			}
+			explore.Must(mp.phase == r && mi.phase == r, "settle: unexpected key update in the model")
+		}
+	}
+	in.settled = true
+	in.outcome = fmt.Sprintf("settle i=%d rounds=%d %s old-read-keys-held=%v/%v", i, rounds, c05KUSettleTailNames[tail], in.end[0].a.prevRcvAEAD != nil, in.end[1].a.prevRcvAEAD != nil)
+	return nil
+}
+
 func (in *c05KUInst) Apply(op explore.Op) *explore.Fail {
+	if op.N == "settle" {
+		explore.Must(in.sh.cfg.late && !in.settled, "settle outside the initial state of a late part")
+		return in.settle(op.A, op.B, op.C)
+	}
+	return in.apply1(op)
+}
+
+func (in *c05KUInst) apply1(op explore.Op) *explore.Fail {
 	in.outcome = op.N
 	var fl *explore.Fail
 	switch op.N {
@@ -600,7 +710,7 @@ func (in *c05KUInst) Key() string {
 		}
 		sb.WriteString("]\n")
 	}
-	fmt.Fprintf(&sb, "dead=%v", in.dead)
+	fmt.Fprintf(&sb, "dead=%v settled=%v", in.dead, in.settled)
 	return sb.String()
 }
 
@@ -614,12 +724,20 @@ func c05KeyUpdatePart(name string, cfg c05KUConfig) explore.Part {
 		if e.Thorough() {
 			depth = 10 + cfg.extraDepth
 		}
+		start := "start state: fresh pair of AEADs"
+		if cfg.late {
+			depth = 1 + cfg.lateDepth[0]
+			if e.Thorough() {
+				depth = 1 + cfg.lateDepth[1]
+			}
+			start = fmt.Sprintf("START STATES: the only operation enabled in the initial state is the macro operation settle(i, rounds<=%d, tail) = a fixed sequence of the ordinary operations below, every step judged by the same oracle: confirm(i); rounds x { send(i) (+deliver) until endpoint i initiates the key update, deliver, send(peer), deliver [update confirmed and acknowledged, i's drop timer running]; tick, tick [more than 3*PTO]; send(peer), deliver [i receives a packet after the expiry: regular timer-based discard of the old read keys] }, where the last round ends after the discard | after the two ticks | before them (tail); then all sequences of %d ordinary operations", c05KUSettleRounds, depth-1)
+		}
 		return explore.BFSSpec{
 			New:              func() explore.Instance { return c05KUNew(sh) },
 			MaxDepth:         depth,
 			PanicIsViolation: true,
-			Rule: fmt.Sprintf("BFS over two real updatableAEADs (%s, %s, FirstKeyUpdateInterval=%d, key update interval=%d, ref5 wire monitor=%v); alphabet: confirm(e), send(e) [KeyPhase+Seal+EncryptHeader, carries an ACK of everything received], deliver(e,i) of any of the <=%d packets in flight, drop(e), tick (3*PTO), keyphase(e) [KeyPhase() without a packet], replay(e, first|latest delivered), adversary with keys (terminal): adv-premature(e) [next-phase packet while the receiver has sent nothing in its phase]; adversary without keys (never terminal, enabled in every state, the model ignores it and keeps judging all later genuine packets): adv-tamper(e,i,kind) [copy of any packet in flight with the key phase bit / the last tag bit flipped, the original stays in flight], adv-inject(e,kp,pn) [made-up packet, key phase bit of the receiver's current|next phase, pn 0 | 2^30, sealed with a key generation the receiver never holds]; tick is enabled whenever an endpoint holds previous read keys; state = canon(both AEADs, without the invalid-packet counter) + phase ledger + packets in flight",
-				c05VName(cfg.version), c05SuiteName(cfg.suite), cfg.first, cfg.interval, cfg.monitor, c05KUWindow),
+			Rule: fmt.Sprintf("BFS over two real updatableAEADs (%s, %s, FirstKeyUpdateInterval=%d, key update interval=%d, ref5 wire monitor=%v); alphabet: confirm(e), send(e) [KeyPhase+Seal+EncryptHeader, carries an ACK of everything received], deliver(e,i) of any of the <=%d packets in flight, drop(e), tick (3*PTO), keyphase(e) [KeyPhase() without a packet], replay(e, first|latest delivered), adversary with keys (terminal): adv-premature(e) [next-phase packet while the receiver has sent nothing in its phase]; adversary without keys (never terminal, enabled in every state, the model ignores it and keeps judging all later genuine packets): adv-tamper(e,i,kind) [copy of any packet in flight with the key phase bit / the last tag bit flipped, the original stays in flight], adv-inject(e,kp,pn) [made-up packet, key phase bit of the receiver's current|next phase, pn 0 | 2^30, sealed with a key generation the receiver never holds]; tick is enabled whenever an endpoint holds previous read keys; state = canon(both AEADs, without the invalid-packet counter) + phase ledger + packets in flight; %s",
+				c05VName(cfg.version), c05SuiteName(cfg.suite), cfg.first, cfg.interval, cfg.monitor, c05KUWindow, start),
 		}
 	}
 	return explore.Part{
